@@ -4,6 +4,7 @@ pub mod driver;
 pub mod gens;
 pub mod rat;
 pub mod refmath;
+pub mod regimes;
 pub mod sym;
 pub mod tape;
 pub mod vk;
